@@ -137,20 +137,15 @@ func (s *iso) owns(c int, lo, hi uintptr) int {
 
 const fillAll = 1 << 20
 
-// paint writes the owner's pattern over [lo,hi) of o (all of it when small, the
-// two ends when huge)
+// paint writes the owner's pattern over [lo,hi) of o
 func paint(o *owned, lo, hi uintptr) {
-	base := addr(o.keep)
-	b := o.keep[lo-base : hi-base]
-	if len(b) <= fillAll {
-		for i := range b {
-			b[i] = o.pat
-		}
+	if len(o.keep) > fillAll { // huge allocations carry no canary (touching 2 GiB per op is too slow)
 		return
 	}
-	for i := 0; i < 4096; i++ {
+	base := addr(o.keep)
+	b := o.keep[lo-base : hi-base]
+	for i := range b {
 		b[i] = o.pat
-		b[len(b)-1-i] = o.pat
 	}
 }
 
@@ -158,18 +153,12 @@ func intact(o *owned, lo, hi uintptr) bool {
 	if o.keep == nil || hi <= lo {
 		return true
 	}
-	base := addr(o.keep)
-	b := o.keep[lo-base : hi-base]
-	if len(b) <= fillAll {
-		for _, x := range b {
-			if x != o.pat {
-				return false
-			}
-		}
+	if len(o.keep) > fillAll {
 		return true
 	}
-	for i := 0; i < 4096; i++ {
-		if b[i] != o.pat || b[len(b)-1-i] != o.pat {
+	base := addr(o.keep)
+	for _, x := range o.keep[lo-base : hi-base] {
+		if x != o.pat {
 			return false
 		}
 	}
